@@ -76,6 +76,9 @@ func init() {
 		"strings.Contains": func(e *Exec, st *State, a []Val, x *ast.CallExpr) Val {
 			return Val{T: App(SBool, "str.contains", a[0].T, a[1].T), GT: boolT}
 		},
+		"strings.Compare": func(e *Exec, st *State, a []Val, x *ast.CallExpr) Val {
+			return Val{T: Ite(App(SBool, "str.<", a[0].T, a[1].T), IntLit(-1), Ite(Eq(a[0].T, a[1].T), IntLit(0), IntLit(1))), GT: intT}
+		},
 		// bytes.Equal is an equivalence relation: equality of an abstract "contents" value (quantifier-free)
 		"bytes.Equal": func(e *Exec, st *State, a []Val, x *ast.CallExpr) Val {
 			so := a[0].T.Sort
@@ -167,21 +170,43 @@ func errorType() types.Type { return types.Universe.Lookup("error").Type() }
 // sorting functions over strings/ints the result is ordered.
 func (e *Exec) permuteInPlace(st *State, name string, a []Val, x *ast.CallExpr) Val {
 	s := a[0]
+	if !isSlcSort(s.T.Sort) && x != nil && len(x.Args) > 0 {
+		// sort.Slice takes `any`: use the slice expression itself rather than its boxed value
+		if t := e.info().TypeOf(x.Args[0]); t != nil {
+			if _, ok := t.Underlying().(*types.Slice); ok {
+				s = e.ev(st, x.Args[0])
+			}
+		}
+	}
 	if !isSlcSort(s.T.Sort) {
+		e.note("in-place reordering of a value that is not a slice expression: not modelled")
 		return Val{}
 	}
 	el := slcElem(s.T.Sort)
+	if len(s.T.S) > 60 && e.binders == 0 {
+		// the axioms below use the old array in quantifier patterns: give it a name
+		nm := e.sc.Fresh("presort", s.T.Sort)
+		e.sc.Assert(Eq(nm, s.T))
+		s.T = nm
+	}
 	arr := e.sc.Fresh("permuted", ArraySort(SInt, el))
 	n := SlcLen(s.T)
 	ms := e.sc.Fun("multiset:"+el, []string{ArraySort(SInt, el), SInt}, SInt)
 	e.assume(st, Eq(App(SInt, ms, arr, n), App(SInt, ms, SlcArr(s.T), n)))
-	// membership is preserved both ways (what most callers rely on)
+	// membership is preserved both ways (what most callers rely on); `opt permutation=multiset` keeps only the
+	// (quantifier-free) multiset abstraction for functions whose contracts do not talk about membership
+	light := false
+	if tc := e.frames[0].contract; tc != nil && tc.Opts["permutation"] == "multiset" {
+		light = true
+	}
 	pos := e.sc.Fun(fmt.Sprintf("permpos!%d", e.sc.counter), []string{SInt}, SInt)
 	inv := e.sc.Fun(fmt.Sprintf("perminv!%d", e.sc.counter), []string{SInt}, SInt)
-	e.assume(st, T(SBool, fmt.Sprintf("(forall ((i Int)) (! (=> (and (<= 0 i) (< i %s)) (and (<= 0 (%s i)) (< (%s i) %s) (= (select %s i) (select %s (%s i))) (= (%s (%s i)) i))) :pattern ((select %s i))))",
-		n.S, pos, pos, n.S, arr.S, SlcArr(s.T).S, pos, inv, pos, arr.S)))
-	e.assume(st, T(SBool, fmt.Sprintf("(forall ((i Int)) (! (=> (and (<= 0 i) (< i %s)) (and (<= 0 (%s i)) (< (%s i) %s) (= (select %s i) (select %s (%s i))) (= (%s (%s i)) i))) :pattern ((select %s i))))",
-		n.S, inv, inv, n.S, SlcArr(s.T).S, arr.S, inv, pos, inv, SlcArr(s.T).S)))
+	if !light {
+		e.assume(st, T(SBool, fmt.Sprintf("(forall ((i Int)) (! (=> (and (<= 0 i) (< i %s)) (and (<= 0 (%s i)) (< (%s i) %s) (= (select %s i) (select %s (%s i))) (= (%s (%s i)) i))) :pattern ((select %s i))))",
+			n.S, pos, pos, n.S, arr.S, SlcArr(s.T).S, pos, inv, pos, arr.S)))
+		e.assume(st, T(SBool, fmt.Sprintf("(forall ((i Int)) (! (=> (and (<= 0 i) (< i %s)) (and (<= 0 (%s i)) (< (%s i) %s) (= (select %s i) (select %s (%s i))) (= (%s (%s i)) i))) :pattern ((select %s i))))",
+			n.S, inv, inv, n.S, SlcArr(s.T).S, arr.S, inv, pos, inv, SlcArr(s.T).S)))
+	}
 	switch name {
 	case "sort.Strings", "sort.Ints", "slices.Sort":
 		le := "<="
@@ -189,6 +214,7 @@ func (e *Exec) permuteInPlace(st *State, name string, a []Val, x *ast.CallExpr) 
 			le = "str.<="
 		}
 		e.assume(st, T(SBool, fmt.Sprintf("(forall ((i Int) (j Int)) (=> (and (<= 0 i) (< i j) (< j %s)) (%s (select %s i) (select %s j))))", n.S, le, arr.S, arr.S)))
+		e.assume(st, T(SBool, fmt.Sprintf("(forall ((j Int)) (! (=> (and (< 0 j) (< j %s)) (%s (select %s (- j 1)) (select %s j))) :pattern ((select %s j))))", n.S, le, arr.S, arr.S, arr.S)))
 	}
 	if name == "slices.Reverse" {
 		e.assume(st, T(SBool, fmt.Sprintf("(forall ((i Int)) (! (=> (and (<= 0 i) (< i %s)) (= (select %s i) (select %s (- (- %s 1) i)))) :pattern ((select %s i))))", n.S, arr.S, SlcArr(s.T).S, n.S, arr.S)))
@@ -200,6 +226,23 @@ func (e *Exec) permuteInPlace(st *State, name string, a []Val, x *ast.CallExpr) 
 			e.store(st, x.Args[0], nv)
 		} else {
 			e.note("in-place reordering of a non-lvalue slice expression: effect on aliases not modelled")
+		}
+	}
+	// sort.Slice(s, less): afterwards no later element is less than an earlier one. The ordering is obtained
+	// by evaluating the (single-expression) less function over two bound indices in the state after the call.
+	if (name == "sort.Slice" || name == "sort.SliceStable") && len(a) > 1 && a[1].Fn != nil && a[1].Fn.Lit != nil {
+		if t, ok := e.lessOverIndices(st, a[1].Fn, n); ok {
+			e.assume(st, t)
+		} else {
+			e.note("less function of " + name + " is not a single expression: no ordering assumed")
+		}
+	}
+	// slices.SortFunc(s, cmp): afterwards cmp(s[i], s[j]) <= 0 for i < j.
+	if (name == "slices.SortFunc" || name == "slices.SortStableFunc") && len(a) > 1 && a[1].Fn != nil && a[1].Fn.Lit != nil {
+		if t, ok := e.cmpOverElements(st, a[1].Fn, arr, n, s.GT); ok {
+			e.assume(st, t)
+		} else {
+			e.note("comparison function of " + name + " is not a single expression: no ordering assumed")
 		}
 	}
 	// a comparison closure may be called any number of times
@@ -945,6 +988,9 @@ func (e *Exec) callByContract(st *State, fc *FuncContract, sig *types.Signature,
 		if tc := e.frames[0].contract; tc != nil && tc.Opts["precall"] == "off" {
 			break // the caller's contract only carries call-site clauses; callee preconditions are not claimed
 		}
+		if fc.mentionsOwnGhost(r) {
+			continue // initial value of the callee's own ghost state: nothing a caller can establish
+		}
 		g := e.evContract(st, r.Expr, env)
 		pos := token.NoPos
 		if x != nil {
@@ -1191,4 +1237,120 @@ func (e *Exec) pureRangeAxiom(fn string, sorts []string, rs string, rt types.Typ
 		return
 	}
 	e.sc.Assert(T(SBool, fmt.Sprintf("(forall (%s) (! %s :pattern (%s)))", strings.Join(binders, " "), fact, app)))
+}
+
+// lessOverIndices builds  forall i<j<n: !less(j, i)  for a less function whose body is `return <expr>`.
+func (e *Exec) lessOverIndices(st *State, c *Closure, n Term) (t Term, ok bool) {
+	lit := c.Lit
+	if len(lit.Body.List) != 1 || lit.Type.Params == nil {
+		return Term{}, false
+	}
+	ret, isRet := lit.Body.List[0].(*ast.ReturnStmt)
+	if !isRet || len(ret.Results) != 1 {
+		return Term{}, false
+	}
+	var params []types.Object
+	for _, f := range lit.Type.Params.List {
+		for _, nm := range f.Names {
+			params = append(params, c.Pkg.TypesInfo.Defs[nm])
+		}
+	}
+	if len(params) != 2 || params[0] == nil || params[1] == nil {
+		return Term{}, false
+	}
+	defer func() {
+		if r := recover(); r != nil {
+			if _, isUns := r.(unsupported); !isUns {
+				panic(r)
+			}
+			t, ok = Term{}, false
+		}
+	}()
+	e.sc.counter++
+	iv := T(SInt, fmt.Sprintf("|si?%d|", e.sc.counter))
+	jv := T(SInt, fmt.Sprintf("|sj?%d|", e.sc.counter))
+	st2 := e.specState(st)
+	intT := types.Typ[types.Int]
+	// less(j, i) with i < j
+	st2.vars[params[0]] = Val{T: jv, GT: intT}
+	st2.vars[params[1]] = Val{T: iv, GT: intT}
+	e.binders++
+	e.inContract++
+	fr := &callFrame{name: c.Name, pkg: c.Pkg, node: lit, closures: map[types.Object]*Closure{}}
+	for k, v := range e.top().closures {
+		fr.closures[k] = v
+	}
+	e.frames = append(e.frames, fr)
+	v := e.ev(st2, ret.Results[0])
+	e.frames = e.frames[:len(e.frames)-1]
+	e.inContract--
+	e.binders--
+	if v.T.Sort != SBool {
+		return Term{}, false
+	}
+	pair := fmt.Sprintf("(forall ((%s Int) (%s Int)) (=> (and (<= 0 %s) (< %s %s) (< %s %s)) (not %s)))",
+		iv.S, jv.S, iv.S, iv.S, jv.S, jv.S, n.S, v.T.S)
+	// the adjacent instance, stated separately (it is what loops over the sorted slice need)
+	adjacent := fmt.Sprintf("(forall ((%s Int)) (=> (and (< 0 %s) (< %s %s)) (let ((%s (- %s 1))) (not %s))))",
+		jv.S, jv.S, jv.S, n.S, iv.S, jv.S, v.T.S)
+	return T(SBool, "(and "+pair+" "+adjacent+")"), true
+}
+
+// cmpOverElements builds  forall i<j<n: cmp(arr[i], arr[j]) <= 0  (and its adjacent instance) for a comparison
+// function whose body is `return <expr>`.
+func (e *Exec) cmpOverElements(st *State, c *Closure, arr, n Term, sliceT types.Type) (t Term, ok bool) {
+	lit := c.Lit
+	if len(lit.Body.List) != 1 || lit.Type.Params == nil {
+		return Term{}, false
+	}
+	ret, isRet := lit.Body.List[0].(*ast.ReturnStmt)
+	if !isRet || len(ret.Results) != 1 {
+		return Term{}, false
+	}
+	st0, isSlice := sliceT.Underlying().(*types.Slice)
+	if !isSlice {
+		return Term{}, false
+	}
+	var params []types.Object
+	for _, f := range lit.Type.Params.List {
+		for _, nm := range f.Names {
+			params = append(params, c.Pkg.TypesInfo.Defs[nm])
+		}
+	}
+	if len(params) != 2 || params[0] == nil || params[1] == nil {
+		return Term{}, false
+	}
+	defer func() {
+		if r := recover(); r != nil {
+			if _, isUns := r.(unsupported); !isUns {
+				panic(r)
+			}
+			t, ok = Term{}, false
+		}
+	}()
+	e.sc.counter++
+	iv := T(SInt, fmt.Sprintf("|si?%d|", e.sc.counter))
+	jv := T(SInt, fmt.Sprintf("|sj?%d|", e.sc.counter))
+	st2 := e.specState(st)
+	st2.vars[params[0]] = Val{T: Select(arr, iv), GT: st0.Elem()}
+	st2.vars[params[1]] = Val{T: Select(arr, jv), GT: st0.Elem()}
+	e.binders++
+	e.inContract++
+	fr := &callFrame{name: c.Name, pkg: c.Pkg, node: lit, closures: map[types.Object]*Closure{}}
+	for k, v := range e.top().closures {
+		fr.closures[k] = v
+	}
+	e.frames = append(e.frames, fr)
+	v := e.ev(st2, ret.Results[0])
+	e.frames = e.frames[:len(e.frames)-1]
+	e.inContract--
+	e.binders--
+	if v.T.Sort != SInt {
+		return Term{}, false
+	}
+	pair := fmt.Sprintf("(forall ((%s Int) (%s Int)) (=> (and (<= 0 %s) (< %s %s) (< %s %s)) (<= %s 0)))",
+		iv.S, jv.S, iv.S, iv.S, jv.S, jv.S, n.S, v.T.S)
+	adjacent := fmt.Sprintf("(forall ((%s Int)) (=> (and (< 0 %s) (< %s %s)) (let ((%s (- %s 1))) (<= %s 0))))",
+		jv.S, jv.S, jv.S, n.S, iv.S, jv.S, v.T.S)
+	return T(SBool, "(and "+pair+" "+adjacent+")"), true
 }
